@@ -321,3 +321,29 @@ CLAIMED["C07"]["text"] += (" Fourth round: outcome classes RUNTIME (a recovered 
 CLAIMED["C04"]["text"] += (" Fourth round: rule parameters beyond 2^64 and item counts inside or rule-sets (fixes c58a671, 60afd49).")
 CLAIMED["C01"]["text"] += (" Fourth/fifth round: Schema/E2E.v composes the models into one executable pipeline inside Coq - schema text -> schema scanner -> loader -> w_of_node -> Shape.compile; document text -> JSON "
                            "scanner -> machine events -> the event-level validator - and the check runs it from BOTH TEXTS against Schema.Validate on every generated case (verdict and error code).")
+CLAIMED["C01"]["text"] += (" Sixth round: the pipeline is now also PROVED on plain JSON (Schema/E2EProofs.v, E2EDocProofs.v, E2ETextsProofs.v): C01_e2e_plain_json / _accepts_iff_shape / _layout_invariant / "
+                           "_duplicate_key (for a plain-JSON schema text of any size and layout the pipeline computes Shape.validate of the tree the text spells; layout does not matter; a duplicate key is refused "
+                           "at its position), json_scan_rendered / doc_events_of_text (the JSON scanner model over the rendering of a value yields exactly its event list), C01_validate_texts_plain_json and "
+                           "C01_validate_texts_stuck_iff (from the two TEXTS to the recursive model's verdict; the only documents the conversion refuses are numerals the type guess refuses).")
+CLAIMED["C09"]["text"] += (" Sixth/seventh round: the repaired checker (fix 9a9fdc3: after the walk from the root every named type is expanded as a root of its own) is modelled as check_all, with "
+                           "C09_check_all_iff_inhabited (accepted exactly when the root AND every defined type have a finite inhabitant) and C09_check_all_terminates; arrays with minItems require their first "
+                           "minItems positions (fix fb8368b; edge forms arrmin / arrmin2 / arrmin1of2). Schema/RecursionE2E.v runs the verdict from the schema TEXTS inside Coq (scanner -> loader -> "
+                           "tnode_of_node -> check_all) against Check on every generated graph, and C09_verdict_from_texts says that verdict is the inhabitation verdict of the loaded graph. New known finding "
+                           "C09-allOf-edge-on-an-accepted-cycle (an allOf back-edge is refused with 703 wherever it lies: allOf is an eager copy).")
+CLAIMED["C03"]["text"] += (" Sixth/seventh round: a type reference is judged by the JSON kinds the type accepts (fix 92b915a); a key admitted by several key shortcuts stands under the entry its value fits, and every "
+                           "required shortcut needs a property of its own (fixes 2642da5, 54711a5: the oracle assigns properties to required shortcuts by augmenting paths, objects with two overlapping shortcuts are "
+                           "generated); additionalProperties with a format name validates the format (6af6f9e); an allOf parent without properties still hands down its additionalProperties rule.")
+CLAIMED["C10"]["text"] += (" Seventh round: 'equals another number' is also exercised through Validate: every plain-decimal example with const: true against re-spellings and sign flips of itself and of other numbers.")
+CLAIMED["C11"]["text"] += (" Sixth/seventh round: an order stream - a type object queried before it is added (unnamed types in files of the same name: fix 4ac376f), AddRule after a query that loaded the schema "
+                           "(fix 787f943), an operation on a type object itself before the root is checked (fix 545ff09: allOf resolves all parents before it touches the object); pools whose schemas give the "
+                           "same type NAMES different meanings, judged by an oracle from each schema's own definitions (a process-wide cache is invisible to an in-process comparison with fresh objects).")
+CLAIMED["C13"]["text"] += (" Sixth round: CRLF behind the annotation of a property (fix 542fa4b; the scanner model got a look-behind byte), a line break between a bare rule name and its colon (d5e4e81), the "
+                           "annotation ban after a non-empty array (2daaa0c), a ### block behind a note (0196ace) - all as corpus pairs of equivalent spellings.")
+CLAIMED["C14"]["text"] += (" Seventh round: a slash as the last byte behind a schema or enum rule (fix 3cd814f) and texts of annotations only (fix 2bf15a3: Len says 202 like Check) are generated; "
+                           "C14_schema_len_needs_example / C14_schema_len_no_example: Len never returns a length for a text in which no value begins outside an annotation; annotation openers behind blanks on the "
+                           "line after a value that bans annotations are foreign text.")
+CLAIMED["C17"]["text"] += (" Seventh round (fix 1658789): the renderer counts the blanks of the line itself; C17_line_text_lf/cr/crlf and C17_caret_lf/cr/crlf now hold for EVERY line, also one of blanks only "
+                           "(shown text empty, caret at the first column) - the former hypothesis 'the line has a visible byte' is gone and the CRLF twins are new; the check's oracle judges blank-only lines.")
+CLAIMED["C15"]["text"] += (" Seventh round: required recursion through arrays with minItems is refused by Check (fix fb8368b), so the former invalid examples are gone; objects with two required key shortcuts whose key "
+                           "types share their example key are recognised as the known collision class.")
+CLAIMED["C18"]["text"] += (" Seventh round: lists holding an integer and the float of the same value (different enum items) are generated for the named-versus-inline comparison.")
